@@ -423,6 +423,18 @@ class Sim:
                     raise Illegal("port-map", f"port {formal} associated twice", inst.line)
                 seen.add(fl)
                 _, mode, ft = formals[fl]
+                conv = getattr(formal, "conv", None)
+                if conv is not None:
+                    # conversion in the formal part: only between closely related vector types, only for outputs here
+                    ck = {"std_logic_vector": "slv", "unsigned": "unsigned", "signed": "signed"}.get(conv.lower())
+                    rc = d.scope.lookup(conv.lower())
+                    if ck is None or rc is None or rc[0] != "type":
+                        raise Illegal("port-map", f"formal part {conv}({formal}): {conv!r} is not a visible vector type mark", inst.line)
+                    if not isinstance(ft, TVec):
+                        raise Illegal("type", f"formal part {conv}({formal}): {ft} cannot be converted to {conv}", inst.line)
+                    if mode != "out":
+                        raise Unsupported("type conversion in the formal part of an input port")
+                    ft = TVec(ck, ft.left, ft.right, ft.downto)
                 if actual == "open":
                     if mode == "in":
                         raise Illegal("port-map", f"input port {formal} left open", inst.line)
@@ -430,7 +442,7 @@ class Sim:
                 a = actual
                 while isinstance(a, P.Paren):
                     a = a.expr
-                if isinstance(a, P.Name):
+                if isinstance(a, P.Name) and conv is None:
                     r = d.scope.lookup(a.id.lower())
                     if r is None:
                         raise Illegal("undeclared", f"port map actual {a.id!r} is not declared", inst.line)
@@ -796,6 +808,9 @@ class _Exec:
                 self.writes.add(ia.target_flat)
             else:
                 src = self._sig_value(ia.source_flat)
+                ft = getattr(ia, "formal_type", None)
+                if isinstance(ft, TVec) and isinstance(src.t, TVec) and ft.kind != src.t.kind:
+                    src = V(ft, src.x)  # type conversion in the formal part (same bits)
                 self.reads.add(ia.source_flat)
                 self.reads_unguarded.add(ia.source_flat)
                 self.assign_signal(ia.target_node, src, ia.target_node)
